@@ -78,8 +78,25 @@ Lib == [
           meqs |-> << Eq(V("ob", 0), <<"add", <<"mul", N(2), V("k", 0)>>, N(1)>>), Eq(V("oc", 0), <<"add", V("c", 0), V("k", CNeg1)>>) >>,
           \* the level of a unit-root variable is not determined by the equations: which solution of the family is returned is not
           \* specified (the certificate is the member with k = 0); levels are then not compared, changes and the equations are
-          xvars |-> <<>>, freelevel |-> TRUE] ]
-Ids == {"S1", "S2", "S3", "S4", "S5", "S6", "S7", "S8"}
+          xvars |-> <<>>, freelevel |-> TRUE],
+  \* a simultaneous core that cannot be peeled from the front (x, y) followed by a recursive tail two levels deep (p, then q which needs p)
+  S9 |-> [vars |-> <<"q", "x", "p", "y">>, logv |-> {}, logrep |-> {}, pars |-> <<>>, linear |-> FALSE, flat |-> TRUE,
+          eqs |-> << Eq(V("q", 0), <<"mul", V("p", 0), V("y", CNeg1)>>),
+                     Eq(<<"mul", V("x", 0), V("y", 0)>>, N(6)),
+                     Eq(V("p", 0), <<"add", V("x", CNeg1), V("y", 0)>>),
+                     Eq(V("y", 0), <<"add", V("x", 0), N(1)>>) >>,
+          fix |-> <<>>, swap |-> <<>>,
+          level |-> [q |-> R(15), x |-> R(2), p |-> R(5), y |-> R(3)], change |-> [q |-> RZero, x |-> RZero, p |-> RZero, y |-> RZero], parsol |-> <<>>,
+          mvars |-> <<>>, meqs |-> <<>>, xvars |-> <<>>],
+  \* a cubic with one real root (-2) and a positive local minimum between the default starting value and the root: a trap for
+  \* least-squares type solvers, which must then fail rather than return the stationary point
+  S10 |-> [vars |-> <<"x", "y">>, logv |-> {}, logrep |-> {}, pars |-> << <<"a", R(4)>> >>, linear |-> FALSE, flat |-> TRUE,
+          eqs |-> << Eq(<<"add", <<"sub", <<"pow", V("x", 0), N(3)>>, <<"mul", N(2), V("x", CNeg1)>> >>, P("a")>>, N(0)),
+                     Eq(V("y", 0), <<"add", V("x", 0), N(1)>>) >>,
+          fix |-> <<>>, swap |-> <<>>,
+          level |-> [x |-> R(-2), y |-> R(-1)], change |-> [x |-> RZero, y |-> RZero], parsol |-> <<>>,
+          mvars |-> <<>>, meqs |-> <<>>, xvars |-> <<>>, altstart |-> <<R(-3), R(1)>>] ]
+Ids == {"S1", "S2", "S3", "S4", "S5", "S6", "S7", "S8", "S9", "S10"}
 
 ParVal(m, n) == LET S == {i \in 1..Len(m.parsol) : m.parsol[i][1] = n} IN
                 IF S # {} THEN m.parsol[CHOOSE i \in S : TRUE][2]
